@@ -57,7 +57,12 @@ def x509_valid(subject, issuer_cert, now):
              "secp256k1": ecdsa.SECP256k1}.get(pub.curve.name)
     if curve is None:
         return False, True
-    h = subject.signature_hash_algorithm
+    try:
+        h = subject.signature_hash_algorithm
+    except Exception:
+        # a signature algorithm the library does not know: nothing the issuer's key
+        # can be shown to have signed
+        return False, True
     if h is None:
         return False, True
     hf = {"sha256": hashlib.sha256, "sha384": hashlib.sha384, "sha512": hashlib.sha512,
